@@ -107,6 +107,38 @@ fn case(stage: u8, code: u32, seed: u64) -> Option<String> {
 fn bincode_de<T: serde::de::DeserializeOwned>(b: &[u8]) -> Option<T> { bincode::deserialize(b).ok() }
 fn bincode_ser<T: serde::Serialize>(t: &T) -> Option<Vec<u8>> { bincode::serialize(t).ok() }
 
+/// byte-level corruption (C20 'absurd counts and lengths'): an 8-byte little-endian field of a valid .sig / .delta file is
+/// overwritten with 2^40, 2^60 or 2^64-1 at offset `off`, and the CLI reads it under a 1 GiB address-space limit.
+/// stage 3 = .sig given to `copia delta`, stage 4 = .delta given to `copia patch`. code = off * 3 + value index.
+fn byte_case(stage: u8, code: u32, seed: u64) -> Option<String> {
+    use std::os::unix::process::CommandExt;
+    let d = tmp(&format!("b{stage}-{code}-{seed}"));
+    let (basis, src) = data(seed);
+    std::fs::write(d.join("basis"), &basis).ok()?; std::fs::write(d.join("src"), &src).ok()?;
+    let r = (|| -> Option<String> {
+        if run(&["signature", &p(&d, "basis"), "-o", &p(&d, "b.sig"), "-b", "1024"]).code != Some(0) { return None; }
+        if run(&["delta", &p(&d, "src"), &p(&d, "b.sig"), "-o", &p(&d, "s.delta")]).code != Some(0) { return None; }
+        let (file, args): (&str, Vec<String>) = if stage == 3 { ("b.sig", vec!["delta".into(), p(&d, "src"), p(&d, "b.sig"), "-o".into(), p(&d, "o.delta")]) } else { ("s.delta", vec!["patch".into(), p(&d, "basis"), p(&d, "s.delta"), "-o".into(), p(&d, "out")]) };
+        let mut blob = std::fs::read(d.join(file)).ok()?;
+        let (off, vi) = ((code / 3) as usize, code % 3);
+        if off + 8 > blob.len() { return None; }
+        let val: u64 = [1u64 << 40, 1u64 << 60, u64::MAX][vi as usize];
+        blob[off..off + 8].copy_from_slice(&val.to_le_bytes());
+        std::fs::write(d.join(file), &blob).ok()?;
+        let mut c = Command::new(bin()?);
+        c.args(&args).env("RUST_BACKTRACE", "0").stdout(std::process::Stdio::null()).stderr(std::process::Stdio::piped());
+        #[allow(unsafe_code)]
+        unsafe { c.pre_exec(|| { let l = libc::rlimit { rlim_cur: 1 << 30, rlim_max: 1 << 30 }; libc::setrlimit(libc::RLIMIT_AS, &l); Ok(()) }); }
+        let o = c.output().ok()?;
+        let code_ = o.status.code();
+        if code_.is_none() || code_ == Some(101) || code_ == Some(134) {
+            return Some(format!("`copia {}` CRASHED (status {code_:?}) under a 1 GiB limit on a {file} whose 8 bytes at offset {off} were overwritten with {val:#x}: {}", args[0], String::from_utf8_lossy(&o.stderr).chars().take(160).collect::<String>()));
+        }
+        None
+    })();
+    let _ = std::fs::remove_dir_all(&d);
+    r
+}
 pub fn search(contract: &str, seed: u64, as_twin: bool) -> i32 {
     if bin().is_none() { eprintln!("COPIA_BIN not set"); if as_twin { println!("CASES 0"); } return 0; }
     let mut cases = 0u64;
@@ -121,12 +153,25 @@ pub fn search(contract: &str, seed: u64, as_twin: bool) -> i32 {
             }
         }
     }
+    // byte-level length corruption: every 5th offset of the first 400 (rotating with the seed), all three values
+    if !contract.contains("run_delta") && !contract.contains("run_patch") || contract == "cli" {
+        for stage in [3u8, 4u8] { let mut off = (seed % 5) as u32; while off < 400 { for vi in 0..3u32 {
+            cases += 1;
+            if let Some(what) = byte_case(stage, off * 3 + vi, seed) {
+                println!("WITNESS {{\"kind\":\"cli\",\"stage\":{stage},\"code\":{},\"seed\":{seed},\"what\":\"{}\"}}", off * 3 + vi, what.replace('"', "'").replace('\n', " "));
+                if as_twin { println!("CASES {cases}"); }
+                return 1;
+            }
+        } off += 5; } }
+    }
     if as_twin { println!("CASES {cases}"); }
     0
 }
 pub fn run_w(w: &str) -> i32 {
     let _ = json_str(w, "kind");
-    match case(json_u64(w, "stage").unwrap_or(0) as u8, json_u64(w, "code").unwrap_or(0) as u32, json_u64(w, "seed").unwrap_or(0)) {
+    let st = json_u64(w, "stage").unwrap_or(0) as u8;
+    let f = if st >= 3 { byte_case } else { case };
+    match f(st, json_u64(w, "code").unwrap_or(0) as u32, json_u64(w, "seed").unwrap_or(0)) {
         Some(what) => { println!("REPRODUCED: {what}"); 1 }
         None => { println!("not reproduced: the CLI reports an error or produces bytes matching the checksum"); 0 }
     }
